@@ -166,6 +166,8 @@ def r2_unit_independence(ctx):
     _C04._system_units_agree(ctx)    # inputs given in a unit system (#SMAS, ...) and in plain units denote the same amounts (shared with C04.R1)
     _C03.r8_tables(ctx)              # ... and so do prefixed inputs: table well-formedness, SI prefix powers (shared with C03.R8)
     _cells_are_converted(ctx)
+    from . import C11 as _C11
+    _C11._cell_table(ctx)            # the plain-number tables (print_matter, quantity=False) show the same amounts: a cell is the quantity's value in the column unit, not rounded to a fixed number of decimals (1e-20 g/cm3 would read 0; shared with C11.R3)
     def unitless_reads(tree):
         out = []
         for n in ast.walk(tree):
